@@ -21,6 +21,8 @@ impl IsSubset for Value {
     fn is_subset(&self, other: &Self) -> bool {
         #[cfg(feature = "verif_hooks")]
         crate::verif_hooks::bump(3);
+        #[cfg(feature = "verif_hooks")]
+        let _frame = crate::verif_hooks::enter(3);
         match self {
             Self::Null => other.is_optional() || other.is_null(),
             // Optionals
